@@ -91,6 +91,16 @@ namespace Pistache::Http
                 OUT(os << crlf);
             }
 
+            // headers that were set as name and value only (addRaw); cookies are written from
+            // the jar
+            for (const auto& raw : headers.rawList())
+            {
+                const auto& name = raw.second.name();
+                if (headers.has(name) || !strcasecmp(name.c_str(), "Cookie") || !strcasecmp(name.c_str(), "Set-Cookie"))
+                    continue;
+                OUT(os << name << ": " << raw.second.value() << crlf);
+            }
+
             return true;
 
 #undef OUT
